@@ -2356,7 +2356,7 @@ func (t *tr) fullRet() LT {
 
 // goResultTypes: result types of helper functions translated on demand
 var goResultTypes = map[string]LT{"error": "Err", "math.Int": "Int", "bool": "Bool", "math.LegacyDec": "Dec", "sdk.Coin": "Coin",
-	"types.Bid": "Bid", "int64": "Int", "uint64": "Int", "int": "Int", "sdk.AccAddress": "Acc", "string": "Acc", "time.Time": "Time"}
+	"types.Bid": "Bid", "int64": "Int", "uint64": "Int", "int": "Int", "sdk.AccAddress": "Acc", "string": "Acc", "time.Time": "Time", "[]string": "List Acc", "[]types.Bid": "List Bid", "[]Bid": "List Bid", "Bid": "Bid", "sdk.Coins": "Coins", "[]types.VestingQueue": "List VQ", "[]types.AllowedBidder": "List Allowed"}
 
 // autoUnit translates, on demand, a helper function of the unit's own package that the unit
 // table does not list (a refactoring that extracts a helper must not make its callers
@@ -2375,7 +2375,21 @@ func (t *tr) autoUnit(recvName, fname string, args []ast.Expr, en env) *Unit {
 		return nil
 	}
 	u := &Unit{Group: t.u.Group, Pkg: t.u.Pkg, Recv: recvName, Func: fname, Calls: t.u.Calls, Idents: t.u.Idents,
-		EffectsOn: t.u.EffectsOn, Alias: t.u.Alias, MapKeys: t.u.MapKeys, StoreOn: t.u.StoreOn, JoinIfs: t.u.JoinIfs, TypeNames: t.u.TypeNames}
+		EffectsOn: t.u.EffectsOn, Alias: t.u.Alias, MapKeys: t.u.MapKeys, MapKeyOrder: t.u.MapKeyOrder, StoreOn: t.u.StoreOn, JoinIfs: t.u.JoinIfs, TypeNames: t.u.TypeNames}
+	// a helper without a context parameter and without a keeper receiver cannot reach the store,
+	// the bank or the hooks: it is a pure function (no effect list, no store threaded through it)
+	hasCtx := recvName != ""
+	if fd.decl.Type.Params != nil {
+		for _, f := range fd.decl.Type.Params.List {
+			switch t.w.render(f.Type) {
+			case "context.Context", "sdk.Context", "keeper.Keeper", "Keeper":
+				hasCtx = true
+			}
+		}
+	}
+	if !hasCtx {
+		u.EffectsOn, u.StoreOn = false, false
+	}
 	key := "." + fname
 	if recvName != "" {
 		u.RecvLean = "Keeper"
@@ -2445,7 +2459,10 @@ func (t *tr) autoUnit(recvName, fname string, args []ast.Expr, en env) *Unit {
 		}
 	}
 	u.Name = t.u.Name + "__" + fname
-	sub := &tr{w: t.w, u: u, reg: t.reg, depth: t.depth + 1, nloop: t.nloop, loopBase: t.u.Name}
+	if t.mapRangeIdx == nil {
+		t.mapRangeIdx = map[*ast.BlockStmt]int{}
+	}
+	sub := &tr{w: t.w, u: u, reg: t.reg, depth: t.depth + 1, nloop: t.nloop, loopBase: t.u.Name, mapRangeIdx: t.mapRangeIdx}
 	if t.loopBase != "" {
 		sub.loopBase = t.loopBase
 	}
